@@ -174,7 +174,7 @@ struct C16Redeliver : Monitor {
 		w->probes[o.answered ? "c16.repeat_of_answered" : "c16.repeat_of_pending"]++;
 		if (cur.name != o.name_as_received) w->probes["c16.recased"]++;
 		if (cur.id != o.id_as_received) w->probes["c16.newid"]++;
-		if (d.src.str() != o.src) w->probes["c16.altsrc"]++;
+		if (d.src.str() != o.src) w->probes[d.src.str().substr(0, d.src.str().rfind(':')) == o.src.substr(0, o.src.rfind(':')) ? "c16.altport" : "c16.altsrc"]++;
 	}
 
 	void on_tun_read(Task &t, const Bytes &) override { if (&t == w->srv) step_tun = true; }
@@ -195,7 +195,8 @@ struct C16Redeliver : Monitor {
 	{
 		if (step_n == 1 && step_is_redeliv && have_before && !step_tun && step_uid >= 0) {
 			auto it = origs.find(step_serial);
-			bool foreign = it != origs.end() && step_d.src.str() != it->second.src && !no_check_ip;
+			auto ip_of = [](const std::string &a) { size_t c = a.rfind(':'); return c == std::string::npos ? a : a.substr(0, c); };
+			bool foreign = it != origs.end() && ip_of(step_d.src.str()) != ip_of(it->second.src) && !no_check_ip;   // the server checks the address, not the port
 			Pos after = pos_of(step_uid);
 			char b[400];
 			if (before.ofr > 15 || after.ofr > 15) w->probes["c16.over16_not_judged"]++;     // a downstream packet beyond 16 fragments is stuck anyway
@@ -257,6 +258,7 @@ struct C16Redeliver : Monitor {
 					uint16_t oid = (uint16_t)((c.data[0] << 8) | c.data[1]), id = (uint16_t)(oid ^ (1 + w->S.D("trig.idv", key) % 65535)); if (!id) id = 1;
 					c.data[0] = id >> 8; c.data[1] = id & 255; w->S.rd_idmap[{c.src.str(), id}] = oid;
 				}
+				if (w->S.U("trig.port", key) < 0.3) { Addr orig = c.src; c.src.port = (uint16_t)(c.src.port ^ 0x2aaa); if (c.src.port < 1024) c.src.port = (uint16_t)(c.src.port + 20000); w->S.rd_altmap[c.src.str()] = orig; w->S.count("fault.redeliver.altport"); }
 				uint64_t dt = k == 0 ? w->S.R("trig.dt", key, 300, 19000) : w->S.R("trig.dt", key, 300, 400000);
 				Sim *S = &w->S;
 				S->at(S->now + dt, [S, c]() { if (S->redeliver_gate && !S->redeliver_gate(c)) return; S->deliver(c); });
@@ -270,6 +272,52 @@ struct C16Redeliver : Monitor {
 	}
 };
 Monitor *mk_c16_redeliver(World *w) { return new C16Redeliver(w); }
+
+// ================================================================== stale duplicates (fault injector for C01)
+// The client tells a new downstream packet from a repeat by a 3-bit sequence number: "current or up to 3 back" is a repeat,
+// anything else is new.  A copy of an answer from 4-7 packets back therefore starts a "new" packet.  This injector delivers such a
+// copy (as a duplicating, delaying path would) right after the first fragment of a multi-fragment packet has reached the client.
+struct StaleDup : Monitor {
+	World *w;
+	struct Old { int seq; Dgram d; uint16_t id; uint64_t t; };
+	std::deque<Old> hist;
+	uint64_t n = 0;
+	double p;
+	StaleDup(World *w) : w(w) { p = w->cfg["faults"].getd("p_stale"); }
+	void on_deliver(const Dgram &d, Sock *s) override
+	{
+		if (!s || !s->owner || !w->client_of(s->owner) || d.redelivery) return;
+		if (d.data.size() < 12 || (d.data.size() >= 3 && d.data[0] == 0x10 && d.data[1] == 0xd1 && d.data[2] == 0x9e)) return;
+		DnsMsg m; Bytes pl; UpQuery u;
+		if (!dns_parse_strict(d.data, m).empty() || m.qd.empty() || !answer_payload(m, pl) || pl.size() <= 2 || !(pl[0] & 0x80)) return;
+		if (!decode_upquery(m.qd[0].name.dotted(), w->domain, u) || (u.cmd != 'p' && u.cmd != 'd')) return;
+		int seq = (pl[1] >> 5) & 7, frag = (pl[1] >> 1) & 15, last = pl[1] & 1;
+		if (frag == 0 && !last && p > 0 && w->all_in_tunnel) {
+			uint64_t key = ++n;
+			if (w->S.U("stale.do", key) < p) {
+				// candidates: data answers whose sequence number is 4..7 back and whose id the client may still accept
+				auto &ids = w->recent_ids[s->owner->name];
+				std::vector<const Old *> cand;
+				for (auto &o : hist) {
+					int back = (seq - o.seq) & 7;
+					if (back < 4) continue;
+					bool idok = false; size_t k = 0;
+					for (auto it = ids.rbegin(); it != ids.rend() && k < 16; ++it, ++k) if (*it == o.id) idok = true;
+					if (idok || w->S.U("stale.anyid", key) < 0.2) cand.push_back(&o);
+				}
+				if (!cand.empty()) {
+					Dgram c = cand[w->S.D("stale.pick", key) % cand.size()]->d; c.redelivery = true;
+					Sim *S = &w->S;
+					S->after(w->S.R("stale.dt", key, 50, 3000), [S, c]() { S->deliver(c); });
+					w->S.count("fault.stale_dup");
+				} else w->S.count("fault.stale_dup.no_candidate");
+			}
+		}
+		hist.push_back({seq, d, m.id, w->S.now});
+		if (hist.size() > 40) hist.pop_front();
+	}
+};
+Monitor *mk_stale_dup(World *w) { return new StaleDup(w); }
 
 // ================================================================== C15
 // Wire-only oracle on everything the real server emits: size of every data answer against the
